@@ -865,6 +865,58 @@ def _proc_item(arg):
 # ------------------------------------------------------------------------------------------- run / replay
 
 
+# ---------------------------------------------------------------------------- exec-alias histories
+# One compound ("exec") alias object is invoked several times in one session; its body runs the command
+# m1 or no command at all, depending on its argument.  The exit code that `ea <x> && jK` inspects is the
+# code of the LAST COMMAND THE BODY RAN IN THAT INVOCATION (none ran = success): nothing may be carried
+# over from an earlier invocation of the same alias.
+EA_BODY = "![m1] if $arg0 == 'r' else None"
+EA_CODES = (0, 1, 3)
+
+
+def _ea_histories(maxlen):
+    steps = [("n", 0)] + [("r", c) for c in EA_CODES]
+    for n in range(1, maxlen + 1):
+        yield from itertools.product(steps, repeat=n)
+
+
+def _ea_item(hist):
+    _install_aliases(False)
+    _XSH.aliases["ea"] = EA_BODY
+    env = _XSH.env
+    env["XONSH_SUBPROC_RAISE_ERROR"] = False
+    env["XONSH_SUBPROC_CMD_RAISE_ERROR"] = False
+    _XSH.ctx.clear()
+    obs, exp = [], []
+    for i, (arg, code) in enumerate(hist):
+        CODES.clear()
+        CODES.update({"m1": code})
+        del LOG[:]
+        exc = None
+        signal.setitimer(signal.ITIMER_REAL, 30.0)
+        try:
+            with contextlib.redirect_stderr(io.StringIO()), contextlib.redirect_stdout(io.StringIO()):
+                _XSH.execer.exec(f"ea {arg} && j1\n", glbs=_XSH.ctx)
+        except BaseException as e:  # noqa: BLE001
+            exc = type(e).__name__
+        finally:
+            signal.setitimer(signal.ITIMER_REAL, 0)
+        obs.append((list(LOG), exc))
+        ran = ["m1"] if arg == "r" else []
+        exp.append((ran + (["j1"] if (arg == "n" or code == 0) else []), None))
+    if obs == exp:
+        return None
+    k = next(i for i in range(len(hist)) if obs[i] != exp[i])
+    prev = "first" if k == 0 else ("after-failed" if hist[k - 1][0] == "r" and hist[k - 1][1] else "after-ok")
+    return common.Violation(
+        key=f"exec-alias-history:{'no-command' if hist[k][0] == 'n' else 'command'}:{prev}",
+        clause="a command runs iff short-circuit evaluation over exit codes reaches it",
+        case={"alias": {"ea": EA_BODY}, "history": [f"ea {a} && j1   # m1 returns {c}" for a, c in hist], "flags": [False, False]},
+        observed=repr(obs),
+        expected=repr(exp),
+    ).to_json()
+
+
 def run(ctx):
     global _BLOCKS, _PDIR
     from .tables import ensure_tables
@@ -906,8 +958,13 @@ def run(ctx):
         ctx.sample({"program": ref.render(prog), "codes": codes, "flags": [True, False], "reference": _fmt_outs(outs)})
     for r, c in list(zip(pres, pcs))[:: max(1, len(pcs) // 3)][:3]:
         ctx.sample({"process": c["mode"], "program": r["body"], "codes": c["codes"], "flags": c["flags"], "observed": r["obs"]})
+    eah = list(_ea_histories(ctx.pick(3, 4)))
+    eres = common.pmap(_ea_item, eah, ctx.jobs, chunk=8, init=_init_worker, seed=ctx.seed)
+    ctx.add_violations([v for v in eres if v])
+    ctx.log(f"exec-alias histories: {len(eah)} sequences of <= {ctx.pick(3, 4)} invocations of one exec alias, {sum(1 for v in eres if v)} violating")
     ctx.coverage.update(
-        evaluations=evals + len(pcs) - prej,
+        exec_alias_histories=len(eah),
+        evaluations=evals + len(pcs) - prej + len(eah),
         distinct_nontrivial=nontrivial,
         rule=(
             "every chain tree with <= n operands over && || and or (flat = Python precedence, nested = parenthesised) x every operand "
@@ -939,6 +996,13 @@ def replay(rec):
     global _PDIR
     case = rec["case"]
     R, C = case["flags"]
+    if rec["key"].startswith("exec-alias-history:"):
+        _init_worker()
+        hist = [(h.split()[1], int(h.rsplit(" ", 1)[1])) for h in case["history"]]
+        v = _ea_item(tuple(hist))
+        print("history :", case["history"])
+        print("observed:", v["observed"] if v else "as expected", " expected:", rec.get("expected"))
+        return 1 if v else 0
     if rec["key"].startswith("rejected:"):
         _init_worker()
         ok = compile_prog(case["program"]) is not None
